@@ -374,6 +374,7 @@ def gen_scenario(seed, root, params):
         tc_lines, used = tg.lines, tg.used
         proj.toolchain = 'toolchain.bfg'
         proj.files['toolchain.bfg'] = text
+        proj.tc_relative = rng.random() < 0.4
     later = []
     for i in range(params.get('later', 4)):
         amb, labels = perturb(rng, env, w)
